@@ -34,7 +34,13 @@
 (*       F2: CMap H, DW 400                      /CS0 not defined          *)
 (*       encrypted (decipher_all runs on every parsed object)              *)
 (* Page 2 of every document carries an inline image; page 1 of dB carries  *)
-(* a grid of text boxes at pairwise equal distances.                       *)
+(* a grid of text boxes at pairwise equal distances and defines and paints *)
+(* a form /Fm1; page 2 of dB has an EMPTY /Resources dictionary but still  *)
+(* says /F1 Tf, /CS0 cs and /Fm1 Do (names only page 1 defines): it must   *)
+(* get the default font, the default colour space and no form - whether it *)
+(* is extracted after page 1 or alone.                                     *)
+(* PER PAGE (PDFPageInterpreter.fontmap / xobjmap / csmap = calls[s].fm /  *)
+(* .xo / .cs): re-initialised by AInitResources for EVERY page.            *)
 (*                                                                         *)
 (* SCHEDULER ACTIONS (the public calls; this is what a history is made of):*)
 (*   Extract(d,c,ps,k)  one atomic high-level call (extract_text,          *)
@@ -49,7 +55,7 @@
 (* executed and the micro-steps below belong to it.                        *)
 (*                                                                         *)
 (* MICRO-STEPS (one per code step that touches shared or cached state):    *)
-(*   ADocOpen  APageStart  AInitColorSpacesCopy                            *)
+(*   ADocOpen  APageStart  AInitResources  AInitColorSpacesCopy            *)
 (*   AFontCacheHit  AFontMiss  AGetFontSpec  AGetObjParsed                 *)
 (*   ADecipherAllInPlace  ACopyDescendantSpec                              *)
 (*   AGetEncodingShared  AGetEncodingCopyOnWrite  ADifferencesAssign       *)
@@ -64,6 +70,10 @@
 (*                     ASSIGNS a new value; a removal (glyph name without  *)
 (*                     Unicode value) that comes first hits the shared one *)
 (*   ColorSpaceNoCopy  csmap is PREDEFINED_COLORSPACE itself, not a copy   *)
+(*   InitResourcesEarlyReturn  init_resources returns for an empty         *)
+(*                     /Resources BEFORE it resets fontmap / xobjmap /     *)
+(*                     csmap: the page keeps the maps of the page the same *)
+(*                     interpreter rendered before                         *)
 (*   UseCMapAlias      use_cmap aliases the cached table instead of copying*)
 (*   UMapKeyCoarse     the unicode-map cache keeps one writing mode only   *)
 (*   SharedManager     one PDFResourceManager (font cache keyed by objid)  *)
@@ -137,8 +147,13 @@ NamesOf(d)  == <<"F1", "F2", "VerifSans", "WinAnsiEncoding", CMapOf(d)>>
 \* ToUnicode of the Type0 font object o (dA: F2 only - F3 shares the descendant but has none)
 ToUni0(d, o) == [c \in Codes |-> IF d = "dA" /\ o = 6 THEN (IF c = 1 THEN "T" ELSE "U") ELSE ""]
 \* page 1 lists F1 F2 and shows codes 1 2 with each; page 2 lists F1 F3 and shows 2 1 with F1, 1 2 with F3
-Shows(p)    == IF p = 1 THEN << <<5, 1>>, <<5, 2>>, <<6, 1>>, <<6, 2>> >> ELSE << <<5, 2>>, <<5, 1>>, <<18, 1>>, <<18, 2>> >>
-FontSeq(p)  == IF p = 1 THEN <<5, 6>> ELSE <<5, 18>>
+\* ... except page 2 of dB: its /Resources dictionary is empty, it shows 2 1 with the NAME /F1 only
+HasResources(d, p) == ~(d = "dB" /\ p = 2)
+Shows(d, p) == IF p = 1 THEN << <<5, 1>>, <<5, 2>>, <<6, 1>>, <<6, 2>> >>
+               ELSE IF HasResources(d, p) THEN << <<5, 2>>, <<5, 1>>, <<18, 1>>, <<18, 2>> >> ELSE << <<5, 2>>, <<5, 1>> >>
+FontSeq(d, p) == IF p = 1 THEN <<5, 6>> ELSE IF HasResources(d, p) THEN <<5, 18>> ELSE <<>>
+DefinesForm(d, p) == d = "dB" /\ p = 1    \* /XObject << /Fm1 .. >> in the page's resources
+UsesForm(d, p)    == d = "dB"             \* /Fm1 Do in the page's content
 HasInline(d, p) == p = 2                  \* an inline image (BI .. ID .. EI)
 HasTie(d, p)    == d = "dB" /\ p = 1      \* text boxes at pairwise equal distances: the grouping order needs a tie-break
 
@@ -153,12 +168,17 @@ RefGlyph(d, o, c) ==
                  ELSE UText(IF Vertical(CMapOf(d)) THEN PristineUMapV ELSE PristineUMapH, cid),
         w |-> CIDWidths(d)[c]]
 \* Fresh does not mention the options: that the caching flag and the page subset are irrelevant is part of the property
-Fresh(d, p) == [txt |-> [k \in 1..Len(Shows(p)) |-> RefGlyph(d, Shows(p)[k][1], Shows(p)[k][2]).text],
-                w   |-> [k \in 1..Len(Shows(p)) |-> RefGlyph(d, Shows(p)[k][1], Shows(p)[k][2]).w],
-                n   |-> IF CSOf(d) = 0 THEN 1 ELSE CSOf(d),
+\* a page without resources: every font name is undefined - the default font (StandardEncoding, no widths), the default
+\* colour space, no XObject
+RefShow(d, p, k) == LET sh == Shows(d, p)[k] IN
+                    IF HasResources(d, p) THEN RefGlyph(d, sh[1], sh[2]) ELSE [text |-> PristineEnc["Standard"][sh[2]], w |-> 0]
+Fresh(d, p) == [txt |-> [k \in 1..Len(Shows(d, p)) |-> RefShow(d, p, k).text],
+                w   |-> [k \in 1..Len(Shows(d, p)) |-> RefShow(d, p, k).w],
+                n   |-> IF CSOf(d) = 0 \/ ~HasResources(d, p) THEN 1 ELSE CSOf(d),
+                frm |-> IF UsesForm(d, p) /\ DefinesForm(d, p) THEN "drawn" ELSE "",
                 img |-> IF HasInline(d, p) THEN "inline0" ELSE "",           \* name of the inline image: its number on the page
                 grp |-> IF HasTie(d, p) THEN "creation-order" ELSE ""]       \* ties are broken by the order the boxes were made in
-NoRes == [txt |-> <<>>, w |-> <<>>, n |-> 0, img |-> "", grp |-> ""]
+NoRes == [txt |-> <<>>, w |-> <<>>, n |-> 0, frm |-> "", img |-> "", grp |-> ""]
 \* ghost: the page result produced by the step just taken (valid only in the state right after ARender - every other
 \* step clears it, so that it does not multiply the state space)
 NoLast == [valid |-> FALSE, doc |-> "", page |-> 0, res |-> NoRes]
@@ -179,7 +199,7 @@ NoFonts == [o \in FontObjs |-> NoFont]
 NoD9 == [dec |-> 0, tu |-> EmptyStr]
 Free == [st |-> "free", doc |-> "", caching |-> FALSE, pages |-> {}, kind |-> "", atomic |-> FALSE,
          fonts |-> NoFonts, d9 |-> NoD9, done |-> {}, cur |-> 0, pc |-> "", todo |-> <<>>,
-         fm |-> NoFonts, bld |-> NoFont, dec |-> 0, dk |-> 0, csShared |-> FALSE, cs |-> PristineCS]
+         fm |-> NoFonts, bld |-> NoFont, dec |-> 0, dk |-> 0, csShared |-> FALSE, cs |-> PristineCS, xo |-> FALSE]
 
 Init == /\ base = [enc |-> PristineEnc, cs |-> PristineCS]
         /\ cmapc = [n \in CMapNames |-> [loaded |-> FALSE, tab |-> EmptyTab]]
@@ -195,7 +215,7 @@ Init == /\ base = [enc |-> PristineEnc, cs |-> PristineCS]
 
 \* one uniform record type for the recorded schedule
 Ev(a, s, d, c, ps, k, p, r) == [a |-> a, s |-> s, d |-> d, c |-> c, ps |-> ps, k |-> k, p |-> p, txt |-> r.txt, w |-> r.w, n |-> r.n,
-                                img |-> r.img, grp |-> r.grp]
+                                frm |-> r.frm, img |-> r.img, grp |-> r.grp]
 Log(e) == sched' = IF History THEN Append(sched, e) ELSE sched
 
 Min(S) == CHOOSE x \in S : \A y \in S : x <= y
@@ -266,19 +286,32 @@ ADocOpen ==
 \* PDFPage.get_pages yields the next selected page; process_page -> render_contents -> init_resources
 APageStart ==
   /\ Micro("page")
-  /\ SetMe([Me EXCEPT !.cur = Min(Remaining(running)), !.pc = "cs", !.fm = NoFonts])
+  /\ SetMe([Me EXCEPT !.cur = Min(Remaining(running)), !.pc = "res"])
   /\ last' = NoLast /\ UNCHANGED <<base, cmapc, umapc, interned, heap, shared, running, ncalls, client, sched>>
 
-\* init_resources: self.csmap = PREDEFINED_COLORSPACE.copy(), then the document's own colour spaces are added
+\* init_resources(resources): fontmap, xobjmap and csmap are made anew for EVERY page - also for a page whose /Resources is
+\* empty (for which nothing else is prepared).  Dangerous alternative: return for empty resources before the reset.
+AInitResources ==
+  /\ Micro("res")
+  /\ LET has == HasResources(Me.doc, Me.cur)
+         fresh == [Me EXCEPT !.fm = NoFonts, !.xo = FALSE, !.csShared = ("ColorSpaceNoCopy" \in Dev), !.cs = base.cs] IN
+     IF has THEN SetMe([fresh EXCEPT !.pc = "cs"])
+     ELSE IF "InitResourcesEarlyReturn" \in Dev THEN SetMe([Me EXCEPT !.pc = "font", !.todo = <<>>])
+     ELSE SetMe([fresh EXCEPT !.pc = "font", !.todo = <<>>])
+  /\ last' = NoLast /\ UNCHANGED <<base, cmapc, umapc, interned, heap, shared, running, ncalls, client, sched>>
+
+\* init_resources: self.csmap = PREDEFINED_COLORSPACE.copy(), then the document's own colour spaces are added (and the
+\* page's XObjects entered into xobjmap)
 AInitColorSpacesCopy ==
   /\ Micro("cs")
   /\ LET d == Me.doc
          add(t) == IF CSOf(d) = 0 THEN t ELSE [t EXCEPT !["CS0"] = CSOf(d)] IN
      IF "ColorSpaceNoCopy" \in Dev
      THEN /\ base' = [base EXCEPT !.cs = add(base.cs)]
-          /\ SetMe([Me EXCEPT !.csShared = TRUE, !.pc = "font", !.todo = FontSeq(Me.cur)])
+          /\ SetMe([Me EXCEPT !.csShared = TRUE, !.pc = "font", !.todo = FontSeq(Me.doc, Me.cur), !.xo = DefinesForm(Me.doc, Me.cur)])
      ELSE /\ base' = base
-          /\ SetMe([Me EXCEPT !.csShared = FALSE, !.cs = add(base.cs), !.pc = "font", !.todo = FontSeq(Me.cur)])
+          /\ SetMe([Me EXCEPT !.csShared = FALSE, !.cs = add(base.cs), !.pc = "font", !.todo = FontSeq(Me.doc, Me.cur),
+                              !.xo = DefinesForm(Me.doc, Me.cur)])
   /\ last' = NoLast /\ UNCHANGED <<cmapc, umapc, interned, heap, shared, running, ncalls, client, sched>>
 
 \* PDFResourceManager.get_font(objid, spec): objid in _cached_fonts
@@ -423,7 +456,9 @@ AFontCacheFill ==
 
 \* what a font shows for a code NOW (fonts hold references into the shared tables, so this reads the current process state)
 GlyphText(f, c) ==
-  IF f.kind = "simple"
+  IF f.kind = ""          \* the name is not in the font map: get_font(None, {}) - the default font over StandardEncoding
+  THEN LET v == base.enc["Standard"][c] IN IF v = "" THEN "cid?" ELSE v
+  ELSE IF f.kind = "simple"
   THEN IF f.touni[c] # "" THEN f.touni[c]
        ELSE LET v == IF f.encShared THEN base.enc[f.encName][c] ELSE f.encOwn[c] IN IF v = "" THEN "cid?" ELSE v
   ELSE IF f.touni[c] # "" THEN f.touni[c]
@@ -432,11 +467,12 @@ GlyphText(f, c) ==
            vert == IF "UMapKeyCoarse" \in Dev THEN umapc.first = "v" ELSE f.vert IN
        UText(IF vert THEN umapc.v ELSE umapc.h, cid)
 PageResult(s) ==
-  LET p == calls[s].cur  sh == Shows(p)
+  LET p == calls[s].cur  sh == Shows(calls[s].doc, p)
       ncs == IF calls[s].csShared THEN base.cs["CS0"] ELSE calls[s].cs["CS0"] IN
   [txt |-> [k \in 1..Len(sh) |-> GlyphText(calls[s].fm[sh[k][1]], sh[k][2])],
    w   |-> [k \in 1..Len(sh) |-> calls[s].fm[sh[k][1]].w[sh[k][2]]],
    n   |-> IF ncs = 0 THEN 1 ELSE ncs,
+   frm |-> IF UsesForm(calls[s].doc, p) /\ calls[s].xo THEN "drawn" ELSE "",
    img |-> IF ~HasInline(calls[s].doc, p) THEN ""
            ELSE IF "InlineNameIsAddress" \in Dev THEN "addr" \o ToString(heap) ELSE "inline0",
    grp |-> IF ~HasTie(calls[s].doc, p) THEN ""
@@ -474,7 +510,7 @@ AAddCode2Cid ==
 Sched == \/ \E d \in Docs, c \in Cachings, ps \in PageSets : Open(d, c, ps) \/ \E k \in Kinds : Extract(d, c, ps, k)
          \/ \E s \in 1..MaxLive : Next(s) \/ Close(s)
          \/ \E n \in CMapNames : UseCMap(n)
-Step  == \/ ADocOpen \/ APageStart \/ AInitColorSpacesCopy
+Step  == \/ ADocOpen \/ APageStart \/ AInitResources \/ AInitColorSpacesCopy
          \/ AFontCacheHit \/ AFontMiss \/ AGetFontSpec \/ AGetObjParsed \/ ADecipherAllInPlace \/ ACopyDescendantSpec
          \/ AGetEncodingShared \/ AGetEncodingCopyOnWrite \/ ADifferencesAssign \/ ADifferencesPop \/ AParseToUnicode
          \/ ACMapCacheFill \/ ACMapCacheHit \/ AUMapCacheFill \/ AUMapCacheHit
